@@ -315,7 +315,10 @@ def step (g : G) (op : R17.Op) (obs : String) : G :=
           | .silent => "reply=-"
           | .synack => "reply=t/" ++ R17.epTok dst ++ "/" ++ R17.epTok src ++ "/SA/0"
           | .rst => "reply=t/" ++ R17.epTok dst ++ "/" ++ R17.epTok src ++ "/AR/0"
-        if obs == want then g else g.fail s!"injectsyn {R17.epTok src}>{R17.epTok dst}: got {obs}, expected {want}"
+        -- a SYN on an existing 4-tuple must reach that connection and no listener: silence and
+        -- an ACK from that connection's endpoint are both fine, a SYN-ACK or RST is not
+        let alt := "reply=t/" ++ R17.epTok dst ++ "/" ++ R17.epTok src ++ "/A/0"
+        if obs == want || (exp == .silent && obs == alt) then g else g.fail s!"injectsyn {R17.epTok src}>{R17.epTok dst}: got {obs}, expected {want}"
   | _ => g
 
 end O17
